@@ -69,6 +69,12 @@ def threshold (oldPrice bump : Nat) : Nat := (100 + bump) * oldPrice / 100
 def canReplace (old t : Tx) (bump : Nat) : Bool :=
   !(decide (old.price ≥ t.price) || decide (t.price < threshold old.price bump))
 
+/-- `txList.replaceable`: no transaction with that nonce, or the new one outbids it by the bump -/
+def replaceable (l : TxList) (t : Tx) (bump : Nat) : Bool :=
+  match l.get? t.nonce with
+  | none => true
+  | some o => canReplace o t bump
+
 /-- `txList.Add`: (list, inserted, replaced transaction) -/
 def add (l : TxList) (t : Tx) (bump : Nat) : TxList × Bool × Option Tx :=
   let old := l.get? t.nonce
@@ -350,7 +356,40 @@ def addTail (p : Pool) (t : Tx) (isLocal loc : Bool) : Pool × Except Err Bool :
         else p1
       (p2, .ok r.2.2)
 
-/-- `TxPool.add`: every allowed (pool, result); result `ok replaced` or an error -/
+/-- the part of `TxPool.add` after validation and the replacement-eligibility test: if the pool is
+full make room (`Underpriced`, the churn guard, `Discard` + `removeTx`), then insert -/
+def addRoom (p : Pool) (t : Tx) (isLocal loc : Bool) : List (Pool × Except Err Bool) :=
+  let limit := p.cfg.globalSlots + p.cfg.globalQueue
+  if p.allSlots + t.slots > limit then
+    if !isLocal ∧ p.underpriced t then [(p, .error .underpriced)]
+    else if p.changes > p.cfg.globalSlots / 4 then [(p, .error .poolOverflow)]
+    else
+      (p.discards ((p.allSlots : Int) - limit + t.slots) isLocal).map (fun d =>
+        match d with
+        | none => (p, .error .poolOverflow)
+        | some drop =>
+          let p1 := { p with changes := p.changes + drop.length }
+          let p2 := drop.foldl removeTx p1
+          p2.addTail t isLocal loc)
+  else [p.addTail t isLocal loc]
+
+/-- the early test of `TxPool.add` (repair of finding F12): the transaction is a same-nonce
+replacement that does not meet the price bump.  As in the code: if the sender's pending list
+holds the nonce (`Overlaps`) only that list is asked, otherwise the sender's queued list. -/
+def rejectEarly (p : Pool) (t : Tx) : Bool :=
+  let a := t.sender
+  let pendOverlap := match amGet p.pending a with
+    | some pl => (pl.get? t.nonce).isSome
+    | none => false
+  if pendOverlap then !(((amGet p.pending a).getD (TxList.new true)).replaceable t p.cfg.priceBump)
+  else match amGet p.queue a with
+    | some ql => !(ql.replaceable t p.cfg.priceBump)
+    | none => false
+
+/-- `TxPool.add`: every allowed (pool, result); result `ok replaced` or an error.  Order of the
+rejections as in the code: already known, `validateTx`, under-priced replacement
+(`ErrReplaceUnderpriced`, before anything is discarded — so it wins over `ErrUnderpriced` when the
+pool is full), then the pool-full branch (`ErrUnderpriced`, `ErrTxPoolOverflow`). -/
 def add (p : Pool) (t : Tx) (loc : Bool) : List (Pool × Except Err Bool) :=
   if p.known t then [(p, .error .alreadyKnown)]
   else
@@ -358,19 +397,8 @@ def add (p : Pool) (t : Tx) (loc : Bool) : List (Pool × Except Err Bool) :=
     match p.validate t isLocal with
     | some e => [(p, .error e)]
     | none =>
-      let limit := p.cfg.globalSlots + p.cfg.globalQueue
-      if p.allSlots + t.slots > limit then
-        if !isLocal ∧ p.underpriced t then [(p, .error .underpriced)]
-        else if p.changes > p.cfg.globalSlots / 4 then [(p, .error .poolOverflow)]
-        else
-          (p.discards ((p.allSlots : Int) - limit + t.slots) isLocal).map (fun d =>
-            match d with
-            | none => (p, .error .poolOverflow)
-            | some drop =>
-              let p1 := { p with changes := p.changes + drop.length }
-              let p2 := drop.foldl removeTx p1
-              p2.addTail t isLocal loc)
-      else [p.addTail t isLocal loc]
+      if p.rejectEarly t then [(p, .error .replaceUnderpriced)]
+      else p.addRoom t isLocal loc
 
 /-- `promoteTx` -/
 def promoteTx (p : Pool) (a : Nat) (t : Tx) : Pool :=
